@@ -4,6 +4,7 @@
 -/
 import GenM.Ctrl
 import GenM.RefP
+import Props.C03
 import Lib.Sat
 import Lib.Rot
 import Mathlib.Analysis.Real.Pi.Bounds
@@ -229,5 +230,32 @@ theorem se23_position_height_integrator : loglinear.se23_position_control_p.z_i_
   simp only [cas_defs, cas_real]
   split_ifs <;> first | rfl | linarith
 end se23_position_real
+
+
+/-! ## attitude law: rotation vector of the attitude error, and it reaches the reference -/
+section reach
+open Rot RotExp SeriesLemmas
+/-- the attitude law is the gain times the library's quaternion log of the error quaternion q⁻¹ ⊗ q_r -/
+theorem attitude_law (kp : Fin 3 → ℝ) (q qr : Fin 4 → ℝ) (i : Fin 3) :
+    rdd2.attitude_control.omega_vec kp q qr i = kp i * SO3Quat.log.r_vec (qmul (qconj q) qr) i := by
+  fin_cases i <;> simp [cas_defs, cas_real, qmul, qconj] <;> ring_nf <;> simp
+
+/-- **applying the commanded rotation to the measured attitude reaches the reference** (unit gains): for unit q, q_r whose
+    error quaternion e = q⁻¹ ⊗ q_r has non-zero scalar part (angle ≠ π) and half angle on the closed-form cells,
+    R(q) · R(exp ω) = R(q_r) -/
+theorem attitude_reaches_reference (q qr : Fin 4 → ℝ) (hq : qnormSq q = 1) (hr : qnormSq qr = 1)
+    (h0 : qmul (qconj q) qr 0 ≠ 0)
+    (hc1 : eps ≤ Real.arccos |qmul (qconj q) qr 0|) (hc2 : eps ≤ Real.arccos |qmul (qconj q) qr 0| ^ 2) :
+    qmat q * qmat (SO3Quat.exp.r_vec (rdd2.attitude_control.omega_vec (fun _ => 1) q qr)) = qmat qr := by
+  have hw : rdd2.attitude_control.omega_vec (fun _ => 1) q qr = SO3Quat.log.r_vec (qmul (qconj q) qr) := by
+    funext i; rw [attitude_law]; simp
+  have hc : qnormSq (qconj q) = 1 := by simpa [qnormSq, qconj] using hq
+  have he : qnormSq (qmul (qconj q) qr) = 1 := by rw [qnormSq_mul, hc, hr, one_mul]
+  have he' : qmul (qconj q) qr 0 * qmul (qconj q) qr 0 + qmul (qconj q) qr 1 * qmul (qconj q) qr 1
+      + qmul (qconj q) qr 2 * qmul (qconj q) qr 2 + qmul (qconj q) qr 3 * qmul (qconj q) qr 3 = 1 := by
+    unfold qnormSq at he; nlinarith [he]
+  rw [hw, C03.SO3Quat_exp_log_rotation _ he' h0 hc1 hc2, qmat_mul, ← Matrix.mul_assoc, qmat_mul_conj, hq]
+  simp
+end reach
 
 end C15
